@@ -166,6 +166,13 @@ func FormMessage(form int, msg string) string {
 	return msg
 }
 
+// recovered runs a logging call that ends in a panic (Logger.Panic, Logger.Panicf) the way its caller would: the record
+// has been handed to the handler by the time the panic is raised.
+func recovered(f func()) {
+	defer func() { _ = recover() }()
+	f()
+}
+
 // Emit logs one record through one of the Logger's entry points and returns the source position
 // (last two path elements of the file, line) of the logging call.
 func Emit(l *logger.Logger, form int, level slog.Level, msg string, nodes []Node) (file string, line int) {
@@ -209,6 +216,11 @@ func Emit(l *logger.Logger, form int, level slog.Level, msg string, nodes []Node
 			l.Warnf(msg)
 			return file, line + 1
 		case logger.LevelError:
+			if len(msg)%2 == 1 { // the entry point that logs at LevelError and then panics with the message; the caller recovers
+				file, line = here(1)
+				recovered(func() { l.Panicf(msg) })
+				return file, line + 1
+			}
 			file, line = here(1)
 			l.Errorf(msg)
 			return file, line + 1
@@ -237,6 +249,11 @@ func Emit(l *logger.Logger, form int, level slog.Level, msg string, nodes []Node
 			l.Warnf("%s", msg)
 			return file, line + 1
 		case logger.LevelError:
+			if len(msg)%2 == 1 {
+				file, line = here(1)
+				recovered(func() { l.Panicf("%s", msg) })
+				return file, line + 1
+			}
 			file, line = here(1)
 			l.Errorf("%s", msg)
 			return file, line + 1
@@ -261,6 +278,11 @@ func Emit(l *logger.Logger, form int, level slog.Level, msg string, nodes []Node
 			l.Warn(msg, args...)
 			return file, line + 1
 		case logger.LevelError:
+			if len(msg)%2 == 1 {
+				file, line = here(1)
+				recovered(func() { l.Panic(msg, args...) })
+				return file, line + 1
+			}
 			file, line = here(1)
 			l.Error(msg, args...)
 			return file, line + 1
